@@ -1,7 +1,7 @@
 //! (b) accounting histories: random operation sequences on one `DiskManager`, usage compared with
 //! the real file sizes.
 
-use crate::{files_in_spill_dirs, make_env, make_sm, thread_dir, with_rt, CODECS};
+use crate::{files_in_spill_dirs, make_env, make_sm, report_violation, thread_dir, with_rt, CODECS};
 use arrow::array::{ArrayRef, Int32Array, RecordBatch, StringArray};
 use arrow::datatypes::{DataType, Field, Schema, SchemaRef};
 use datafusion_common::Result;
@@ -71,7 +71,8 @@ fn len_of(p: &Path) -> u64 {
     std::fs::metadata(p).map(|m| m.len()).unwrap_or(0)
 }
 
-pub fn history(rep: &Report, seed: u64, idx: u64, root: &Path, selftest: u64) {
+/// Returns (violation, operation trace).
+pub fn history(rep: &Report, seed: u64, idx: u64, root: &Path, selftest: u64) -> (Option<(String, String)>, Vec<String>) {
     let mut rng = Rng::derive(seed, &[21, 2, idx]);
     let env = make_env(&thread_dir(root));
     let dm = env.disk_manager.clone();
@@ -289,11 +290,12 @@ pub fn history(rep: &Report, seed: u64, idx: u64, root: &Path, selftest: u64) {
     rep.case(fp_mix(fp_mix(212, idx), fp), ok_appends > 0);
     rep.count("b_histories", 1);
     rep.count("b_operations", trace.len() as u64);
-    if let Some((sig, what)) = violation {
-        rep.violation(&sig, json!({"stage": "accounting-history", "codec": codec.to_string(), "operations": trace, "what": what}));
+    if let Some((sig, what)) = &violation {
+        report_violation(rep, sig, json!({"stage": "accounting-history", "codec": codec.to_string(), "operations": trace, "what": what, "replay": {"kind": "accounting", "seed": seed, "index": idx}}));
     } else if idx == 0 {
         rep.sample(json!({"stage": "accounting-history", "codec": codec.to_string(), "operations": trace}));
     }
+    (violation, trace)
 }
 
 /// Threads share one DiskManager with a fixed, tight quota; checked when all threads are joined.
@@ -363,14 +365,14 @@ pub fn threaded(rep: &Report, seed: u64, idx: u64, root: &Path) {
     let live: u64 = kept.iter().map(|(p, _)| len_of(p)).sum();
     let w = |what: String| json!({"stage": "accounting-threads", "threads": n_threads, "quota": limit, "what": what});
     if u != live {
-        rep.violation("usage-differs-from-live-file-bytes", w(format!("after joining all writer threads used_disk_space() = {u} but the {} live file(s) hold {live} bytes", kept.len())));
+        report_violation(rep, "usage-differs-from-live-file-bytes", w(format!("after joining all writer threads used_disk_space() = {u} but the {} live file(s) hold {live} bytes", kept.len())));
     } else if live > limit {
-        rep.violation("admitted-beyond-limit", w(format!("live files hold {live} bytes although the quota was {limit} all the time")));
+        report_violation(rep, "admitted-beyond-limit", w(format!("live files hold {live} bytes although the quota was {limit} all the time")));
     }
     drop(kept);
     if dm.used_disk_space() != 0 {
-        rep.violation("usage-nonzero-after-release", w(format!("used_disk_space() = {} after every handle was dropped", dm.used_disk_space())));
+        report_violation(rep, "usage-nonzero-after-release", w(format!("used_disk_space() = {} after every handle was dropped", dm.used_disk_space())));
     } else if !files_in_spill_dirs(&dm).is_empty() {
-        rep.violation("spill-file-not-removed", w("files left in the spill directory after every handle was dropped".into()));
+        report_violation(rep, "spill-file-not-removed", w("files left in the spill directory after every handle was dropped".into()));
     }
 }
